@@ -63,6 +63,7 @@ def main(argv=None) -> int:
     try:
         if a.replay:
             data = json.loads(Path(a.replay).read_text())
+            ctx.is_replay = True
             mod.replay(ctx, data)
         elif a.selftest:
             mod.selftest(ctx)
